@@ -13,6 +13,7 @@ def gen_script(rng, maxlen=30, maxdepth=4, fns="fgh", loops=True, reads=True, au
         return ctr[0]
 
     budget = [maxlen]
+    last = {}
 
     def sstep(last=False):
         if not last and rng.random() < 0.15:
@@ -45,7 +46,14 @@ def gen_script(rng, maxlen=30, maxdepth=4, fns="fgh", loops=True, reads=True, au
             r = rng.random()
             if r < 0.34:
                 v = rng.choice("ab")
-                out.append([f"bind_{v}", nv()])
+                if v in last and rng.random() < 0.12 and not valmax:
+                    # re-bound to a value that is EQUAL to the previous one but another object: the same number as a float
+                    # (code 400000 + n, see PteraAbs.FloatBase)
+                    out.append([f"bind_{v}", 400000 + last[v]])
+                else:
+                    x = nv()
+                    out.append([f"bind_{v}", x])
+                    last[v] = x
                 bound.add(v)
             elif r < 0.38 and aug and "a" in bound:
                 out.append(["aug_a", nv()])
